@@ -446,6 +446,11 @@ func (m *Model) mustKeep(r *MRepo, now time.Time) map[string]int {
 		d := work[len(work)-1]
 		work = work[:len(work)-1]
 		x := r.mans[d]
+		if r.blobDeleted[d] {
+			// its content was removed through the blob endpoint: nobody can tell what it names any more, and the
+			// client that deleted it cannot rely on that either
+			continue
+		}
 		if isIndexMT(x.mt) {
 			for _, c := range x.view.refs {
 				addM(c)
